@@ -14,7 +14,10 @@ import (
 	"time"
 )
 
-func (o *Obligation) query(forCvc5 bool) string {
+func (o *Obligation) query(forCvc5 bool) string { return o.queryMode(forCvc5, false) }
+
+// queryMode: skeleton = prune facts down to the control skeleton plus what the goal's own symbols need
+func (o *Obligation) queryMode(forCvc5 bool, skeleton bool) string {
 	var sb strings.Builder
 	if forCvc5 {
 		sb.WriteString("(set-option :produce-models true)\n(set-logic ALL)\n")
@@ -29,7 +32,7 @@ func (o *Obligation) query(forCvc5 bool) string {
 		}
 		var keep []bool
 		if !tr.noPrune && os.Getenv("GOVC_NOPRUNE") == "" {
-			keep = tr.relevantFacts(o.Goal, o.Extra, o.NFacts)
+			keep = tr.relevantFacts(o.Goal, o.Extra, o.NFacts, skeleton)
 		}
 		for i, f := range tr.facts[:o.NFacts] {
 			if keep != nil && !keep[i] {
@@ -106,11 +109,25 @@ func discharge(o *Obligation, dir string, timeout int, wantModel bool) {
 	f0 := base + ".nomb.smt2"
 	f1 := base + ".smt2"
 	f2 := base + ".cvc5.smt2"
+	definite := func(r string) bool { return r == "sat" || r == "unsat" }
+	if o.Expect != "sat" && o.tr != nil && os.Getenv("GOVC_NOSKEL") == "" {
+		// stage 0: a small query (control skeleton + the goal's own cone); unsat here is a proof
+		fs := base + ".skel.smt2"
+		os.WriteFile(fs, []byte("(set-option :smt.auto_config false)\n(set-option :smt.mbqi false)\n"+o.queryMode(false, true)), 0o644)
+		r0, dt0, _ := runSolver(solvers[0], 5, fs)
+		if r0 == "unsat" {
+			o.Status, o.Solver, o.Time = "proved", "z3-new(skeleton)", dt0
+			os.Remove(fs)
+			return
+		}
+		o.Time += dt0
+		os.Remove(fs)
+	}
 	q := o.query(false)
 	os.WriteFile(f0, []byte("(set-option :smt.auto_config false)\n(set-option :smt.mbqi false)\n(set-option :smt.candidate_models true)\n"+q+"(get-info :reason-unknown)\n(get-model)\n"), 0o644)
-	definite := func(r string) bool { return r == "sat" || r == "unsat" }
 	res, dt, out := runSolver(solvers[0], timeout, f0)
-	o.Solver, o.Time = "z3-new", dt
+	o.Solver = "z3-new"
+	o.Time += dt
 	o.Model = out
 	if o.Expect == "sat" {
 		// reachability check: only a definite unsat (vacuous contract) matters
